@@ -908,7 +908,7 @@ class Exec:
         recv = lift(recv)
         line = node.lineno
         args, kwargs = self.eval_args(node, st)
-        if name in ("append", "extend", "pop", "insert", "sort", "clear", "update", "add", "setdefault", "remove"):
+        if name in ("append", "extend", "pop", "insert", "sort", "clear", "update", "add", "setdefault", "remove", "add_cmd"):
             self.check_mutation(recv_node, st, structural=True)
             for a in node.args:
                 self.note_escape(a, st)
